@@ -499,6 +499,59 @@ theorem c08_six_estimators (s c c01 : K) (opt1 opt2 opt3 : List K → Nat → Op
   · exact ⟨c08_compute_poc_invariant _ a b ha (c08_affine_invariant_fit 7 s c opt3 a b ha) f,
       c08_fallback_valid _ (c08_index_valid_fit 7 s c opt3) f⟩
 
+/-! ## accuracy of the threshold estimator on noise-free curves -/
+theorem firstIdx_append_false (p : K → Bool) (pre post : List K) (i : Nat) (h : ∀ x ∈ pre, p x = false) :
+    firstIdx p (pre ++ post) i = firstIdx p post (i + pre.length) := by
+  induction pre generalizing i with
+  | nil => simp
+  | cons x xs ih =>
+    simp only [List.cons_append, firstIdx, h x List.mem_cons_self, Bool.false_eq_true, ↓reduceIte,
+      List.length_cons]
+    rw [ih (i + 1) (fun y hy => h y (List.mem_cons_of_mem _ hy))]
+    congr 1; omega
+
+theorem lmax_replicate_zero (n : Nat) (hn : 0 < n) : lmax (List.replicate n (0 : K)) = some 0 := by
+  induction n with
+  | zero => omega
+  | succ m ih =>
+    cases m with
+    | zero => simp [lmax]
+    | succ k =>
+      have := ih (by omega)
+      rw [List.replicate_succ, lmax, this]
+      simp
+
+/-- **on a noise-free curve the threshold estimator is exact**: if the force equals `v` up to the
+contact index `c` (which lies beyond the first tenth of the data) and exceeds `v` from there on, the
+estimate is exactly `c` – the first sample beyond contact -/
+theorem c08_deviation_exact_on_clean_curves (v : K) (c : Nat) (rest : List K) (x0 : K)
+    (hrest : x0 > v) (hbl : (c + (x0 :: rest).length) / 10 ≤ c) (hbl1 : 1 ≤ (c + (x0 :: rest).length) / 10) :
+    devBaseline (List.replicate c v ++ x0 :: rest) = some c := by
+  unfold devBaseline
+  simp only [List.length_append, List.length_replicate]
+  set k := (c + (x0 :: rest).length) / 10 with hk
+  have htake : (List.replicate c v ++ x0 :: rest).take k = List.replicate k v := by
+    rw [List.take_append_of_le_length (by simpa using hbl), List.take_replicate, Nat.min_eq_left hbl]
+  rw [htake]
+  have hkpos : 0 < k := by omega
+  have hne : (List.replicate k v).isEmpty = false := by
+    obtain ⟨m, hm⟩ := Nat.exists_eq_succ_of_ne_zero hkpos.ne'
+    rw [hm]; simp [List.replicate_succ]
+  simp only [hne, Bool.false_eq_true, ↓reduceIte, List.length_replicate, List.sum_replicate, nsmul_eq_mul]
+  have hkK : (k : K) ≠ 0 := by exact_mod_cast hkpos.ne'
+  have havg : (k : K) * v / (k : K) = v := by field_simp
+  rw [havg]
+  have hdev : (List.replicate k v).map (fun b => |b - v|) = List.replicate k 0 := by
+    rw [List.map_replicate]; simp
+  rw [hdev, lmax_replicate_zero k hkpos]
+  simp only
+  rw [firstIdx_append_false _ _ _ 0 (by
+    intro x hx
+    rw [List.mem_replicate] at hx
+    simp [hx.2])]
+  simp only [firstIdx, List.length_replicate, Nat.zero_add, mul_zero]
+  rw [if_pos (by simpa using hrest)]
+
 /-! non-vacuity (ℚ) -/
 example : devBaseline [(0 : ℚ), 0, 0, 0, 0, 0, 0, 0, 0, 0, 0, 1, 2, 3, 4, 5, 6, 7, 8, 9] = some 11 := by
   norm_num [devBaseline, lmax, firstIdx]
